@@ -271,6 +271,22 @@ func TestVerifC02(t *testing.T) {
 		}
 	})
 
+	// first candidates from the LIMB GRID around n (every limb 0, n_i - 1, n_i, n_i + 1 or all ones): above n they must be
+	// skipped, below they must be used - a limb-wise range test that forgets a condition is wrong on some of these only
+	{
+		grid := ref.LimbGrid(nI)
+		var extra []*c02case
+		for gi, kv := range grid {
+			if !hk.Thorough() && gi%3 != int(hk.Seed()%3) {
+				continue
+			}
+			d := keys[gi%len(keys)]
+			stream := append(append(ref.B32(kv), ref.B32(randScalar(rng))...), rng.Bytes(64)...)
+			extra = append(extra, &c02case{d: d, priv: ref.B32(d), e: rng.Bytes(32), stream: stream, chunk: chunks[gi%len(chunks)], plan: "random", label: "first-candidate-from-limb-grid-around-n"})
+		}
+		hk.Parallel(len(extra), func(i int) { c02run(r, extra[i]) })
+	}
+
 	// PAIRS of rare classes inside one call: the first candidate is rejected LATE (r = 0, r + k = n, s = 0: r and
 	// partly s have been computed and stored somewhere), and the accepted second candidate gives an r (or s) with
 	// leading zero bytes - whatever the first round left behind must not show through. The second nonce is found by
